@@ -63,7 +63,7 @@ def concretise_script(world, model):
         elif k == "env":
             acts.append(["env", a[1], _num(conc(model, a[2]))])
         elif k == "conn":
-            acts.append(["conn", a[1], a[2]])
+            acts.append(["conn", a[1], a[2], a[3] if len(a) > 3 else "setup"])
         elif k == "deliver":
             acts.append(["deliver", a[1], conc(model, a[2]), a[3]])
         elif k == "disconnect":
@@ -255,6 +255,7 @@ def run_script(cs, keep_dir=None):
             elif k == "env":
                 pass
             elif k == "conn":
+                st["phase"] = a[3] if len(a) > 3 else st.get("phase", "setup")
                 c = WS.WebSocketServer()
                 c.factory = RealFactory(st["server"])
                 c.label = a[1]
@@ -268,6 +269,7 @@ def run_script(cs, keep_dir=None):
                 if a[2]:
                     c.onOpen()
             elif k == "deliver":
+                st["phase"] = a[3]
                 c = st["conns"][a[1]]
                 payload = json.dumps(a[2]).encode("utf-8")
                 try:
@@ -278,6 +280,7 @@ def run_script(cs, keep_dir=None):
                     elif a[3] == "setup":
                         env.problems.append("setup deliver raised %r" % (ex,))
             elif k == "disconnect":
+                st["phase"] = a[2]
                 c = st["conns"].pop(a[1])
                 try:
                     c.onClose(True, None, None)
@@ -285,6 +288,7 @@ def run_script(cs, keep_dir=None):
                     if a[2] == "step":
                         obs.append(["exc", a[1], type(ex).__name__])
             elif k == "restart":
+                st["phase"] = a[1]
                 st["conns"] = {}
                 st["db"].close()
                 if st["usage"] is not None:
@@ -302,6 +306,7 @@ def run_script(cs, keep_dir=None):
                     _load_usage(st["usage"], a[2])
                 st["phase"] = "step"
             elif k == "expire":
+                st["phase"] = a[1]
                 W_.NullLog.errors = []
                 try:
                     st["timer"].call[0](*st["timer"].call[1], **st["timer"].call[2])
